@@ -344,6 +344,8 @@ int ops_misc(char **args, int na)
 			int devnull = open("/dev/null", O_WRONLY); if (devnull >= 0) dup2(devnull, 2);
 			struct mtbl_reader_options *ro = mtbl_reader_options_init();
 			mtbl_reader_options_set_verify_checksums(ro, verify);
+			/* madv=<0|1>: the other reader option, set AFTER verify_checksums (the order bindings use) */
+			if (kv(args + 2, na - 2, "madv")) mtbl_reader_options_set_madvise_random(ro, (int)kvnum(args + 2, na - 2, "madv", 0));
 			struct mtbl_reader *r = mtbl_reader_init(b->path, ro);
 			if (!r) _exit(11);
 			struct mtbl_iter *it;
